@@ -984,10 +984,12 @@ def process_insert_rewrites(
         nptr_map[ext_ir.expr.ptrref.real_material_ptr.name] = ectx.rel
 
     # Pull in pointers that were not rewritten
-    not_rewritten = {
+    # (A list, not a set: the order determines the column order of the
+    # generated SELECT.)
+    not_rewritten = list(dict.fromkeys(
         (e, ptrref) for e, ptrref in elements
         if ptrref.shortname.name not in handled
-    }
+    ))
     for e, ptrref in not_rewritten:
         # FIXME: Duplicates some with process_insert_shape
         ptr_info = pg_types.get_ptrref_storage_info(
@@ -1967,10 +1969,12 @@ def process_update_rewrites(
             nptr_map[actual_ptrref.name] = ectx.rel
 
         # Pull in pointers that were not rewritten
-        not_rewritten = {
+        # (A list, not a set: the order determines the column order
+        # of the generated SELECT.)
+        not_rewritten = list(dict.fromkeys(
             (e, ptrref) for e, ptrref, _ in elements
             if ptrref.shortname.name not in handled
-        }
+        ))
         for e, ptrref in not_rewritten:
             # FIXME: Duplicates some with process_update_shape
             actual_ptrref = irtyputils.find_actual_ptrref(typeref, ptrref)
